@@ -59,8 +59,11 @@ var c09IDClasses = [][]string{
 	{"https://example.net/inbox"},
 }
 
+// the classes the sections below draw ids from: c09IDClasses, or the wide classes of wideids.go while c09u.go runs
+var c09Cur = c09IDClasses
+
 func c09ID(g *Gen, class int) ap.IRI {
-	c := c09IDClasses[class%len(c09IDClasses)]
+	c := c09Cur[class%len(c09Cur)]
 	return ap.IRI(c[g.Intn(len(c))])
 }
 
@@ -228,23 +231,23 @@ var c09NlvCtr, c09FieldCtr int
 var c09ItemsCtr int
 
 func c09TwoValues(g *Gen, t reflect.Type) (reflect.Value, reflect.Value) {
-	ca := g.Intn(len(c09IDClasses))
-	cb := (ca + 1 + g.Intn(len(c09IDClasses)-1)) % len(c09IDClasses)
+	ca := g.Intn(len(c09Cur))
+	cb := (ca + 1 + g.Intn(len(c09Cur)-1)) % len(c09Cur)
 	switch {
 	case t == tItems:
 		c09ItemsCtr++
 		switch c09ItemsCtr % 6 {
 		case 3: // same length, only the FIRST of two members differs
-			cc := (cb + 1) % len(c09IDClasses)
+			cc := (cb + 1) % len(c09Cur)
 			if cc == ca {
-				cc = (cc + 1) % len(c09IDClasses)
+				cc = (cc + 1) % len(c09Cur)
 			}
 			last := c09ID(g, cc)
 			return reflect.ValueOf(ap.ItemCollection{c09ID(g, ca), last}), reflect.ValueOf(ap.ItemCollection{c09ID(g, cb), last})
 		case 4: // three members, only the middle one differs
-			cc := (cb + 1) % len(c09IDClasses)
+			cc := (cb + 1) % len(c09Cur)
 			if cc == ca {
-				cc = (cc + 1) % len(c09IDClasses)
+				cc = (cc + 1) % len(c09Cur)
 			}
 			first, last := c09ID(g, cc), &ap.Object{ID: "https://example.com/last-member", Type: ap.NoteType}
 			return reflect.ValueOf(ap.ItemCollection{first, c09ID(g, ca), last}), reflect.ValueOf(ap.ItemCollection{first, c09ID(g, cb), last})
@@ -295,55 +298,77 @@ func c09TwoValues(g *Gen, t reflect.Type) (reflect.Value, reflect.Value) {
 	panic("c09TwoValues: unexpected type " + t.String())
 }
 
-func runC09(seed int64, n int, tier string, outDir string) (*Report, error) {
-	rep := &Report{Rule: "items of every shape of the vocabulary (14 struct kinds in value and pointer form, IRI, *IRI, item lists with nil / id-less / link members, IRIs lists, nil-likes) from the structured generator, an odd stream with foreign type names and typed-nil property values; pairs (x,x), (x, other form of x), (x, x with one property changed), (x,y) over a pool, nil matrix; non-trivial = both arguments non-nil structs or lists, distinct by canonical model term"}
-	g := NewGen(seed, "C09")
-	hdr := "From AP.Model Require Import Prelude Vocab Pred Equal.\n" +
-		"Definition ok (c : item * item * outcome bool) : bool := let '(a, b, o) := c in outcome_eqb Bool.eqb (ieq a b) o.\n"
-	// byte-string literals are interned (Definition sN := hx "...") : type-checking the case terms is
-	// ten times faster than with the literals in place
-	type ccase struct{ term, label string }
-	var cases []ccase
-	dict := map[string]string{}
-	var dictOrder []string
-	hxRe := regexp.MustCompile(`\(hx "([0-9a-f]*)"\)`)
-	intern := func(t string) string {
-		return hxRe.ReplaceAllStringFunc(t, func(m string) string {
-			if v, ok := dict[m]; ok {
-				return v
-			}
-			v := fmt.Sprintf("s%d", len(dict))
-			dict[m] = v
-			dictOrder = append(dictOrder, m)
+// correspondence cases of one case set: byte-string literals are interned (Definition sN := hx "...") - type-checking
+// the case terms is ten times faster than with the literals in place
+type c09Case struct{ term, label string }
+type c09Cases struct {
+	rep       *Report
+	seed      int64
+	cases     []c09Case
+	dict      map[string]string
+	dictOrder []string
+	idx       int
+	tag       string // prefix of the canonical terms handed to Distinguish
+}
+
+var c09HxRe = regexp.MustCompile(`\(hx "([0-9a-f]*)"\)`)
+
+func newC09Cases(rep *Report, seed int64, tag string) *c09Cases {
+	return &c09Cases{rep: rep, seed: seed, dict: map[string]string{}, tag: tag}
+}
+
+func (c *c09Cases) intern(t string) string {
+	return c09HxRe.ReplaceAllStringFunc(t, func(m string) string {
+		if v, ok := c.dict[m]; ok {
 			return v
-		})
+		}
+		v := fmt.Sprintf("s%d", len(c.dict))
+		c.dict[m] = v
+		c.dictOrder = append(c.dictOrder, m)
+		return v
+	})
+}
+
+func (c *c09Cases) defs() string {
+	var sb strings.Builder
+	for _, m := range c.dictOrder {
+		fmt.Fprintf(&sb, "Definition %s : bytes := %s.\n", c.dict[m], m[1:len(m)-1])
 	}
-	idx := 0
-	isRich := func(it ap.Item) bool {
-		if it == nil {
-			return false
-		}
-		k := reflect.ValueOf(it).Kind()
-		if k == reflect.Pointer {
-			k = reflect.ValueOf(it).Elem().Kind()
-		}
-		return k == reflect.Struct || k == reflect.Slice
+	return sb.String()
+}
+
+func c09IsRich(it ap.Item) bool {
+	if it == nil {
+		return false
 	}
-	emit := func(a, b ap.Item, label string) {
-		ta, tb := CoqItem(a), CoqItem(b)
-		if strings.Contains(ta, "ITNilOther") || strings.Contains(tb, "ITNilOther") || strings.Contains(ta, "Unknown") || strings.Contains(tb, "Unknown") {
-			return
-		}
-		term := "(" + ta + ", " + tb + ", " + c09Obs(a, b) + ")"
-		cases = append(cases, ccase{intern(term), fmt.Sprintf("seed=%d index=%d %s", seed, idx, label)})
-		rep.Distinguish(term, isRich(a) && isRich(b))
-		if idx%211 == 7 {
-			rep.Sample(term)
-		}
-		idx++
+	k := reflect.ValueOf(it).Kind()
+	if k == reflect.Pointer {
+		k = reflect.ValueOf(it).Elem().Kind()
 	}
+	return k == reflect.Struct || k == reflect.Slice
+}
+
+func (c *c09Cases) emit(a, b ap.Item, label string) {
+	ta, tb := CoqItem(a), CoqItem(b)
+	if strings.Contains(ta, "ITNilOther") || strings.Contains(tb, "ITNilOther") || strings.Contains(ta, "Unknown") || strings.Contains(tb, "Unknown") {
+		return
+	}
+	term := "(" + ta + ", " + tb + ", " + c09Obs(a, b) + ")"
+	c.cases = append(c.cases, c09Case{c.intern(term), fmt.Sprintf("seed=%d index=%d %s", c.seed, c.idx, label)})
+	c.rep.Distinguish(c.tag+term, c09IsRich(a) && c09IsRich(b))
+	if c.idx%211 == 7 {
+		c.rep.Sample(term)
+	}
+	c.idx++
+}
+
+// sections 1-5 of the run: reflexivity, nil matrix, identity, sensitivity, arbitrary pairs.  wide = the run of c09u.go
+// over ids outside the plain URL grammar (idPool and c09Cur swapped by the caller): the sections that do not involve
+// ids are skipped or thinned.  Returns the nil-like items of section 2.
+func c09Sections(g *Gen, cc *c09Cases, n int, tier string, wide bool) []ap.Item {
+	rep, seed, emit := cc.rep, cc.seed, cc.emit
 	violate := func(op string, a, b ap.Item, want, got, class string) {
-		rep.Violate(Violation{Op: op, Input: []string{CoqItem(a), CoqItem(b)}, Expected: want, Observed: got, Class: class, Index: idx})
+		rep.Violate(Violation{Op: op, Input: []string{CoqItem(a), CoqItem(b)}, Expected: want, Observed: got, Class: class, Index: cc.idx})
 	}
 	show := func(r, p bool, msg string) string {
 		if p {
@@ -351,9 +376,14 @@ func runC09(seed int64, n int, tier string, outDir string) (*Report, error) {
 		}
 		return fmt.Sprint(r)
 	}
+	idCarrying := func(t reflect.Type) bool { return t == tItems || t.Kind() == reflect.Interface }
+	_ = seed
 
 	// ---- 1. reflexivity, on everything the generator produces (and never a panic)
 	nRefl := n
+	if wide {
+		nRefl = n / 2
+	}
 	for i := 0; i < nRefl; i++ {
 		x := c09Item(g, i%5 == 4)
 		r, p, msg := c09Eq(x, x)
@@ -385,6 +415,9 @@ func runC09(seed int64, n int, tier string, outDir string) (*Report, error) {
 	}
 	nn := 0
 	for _, a := range nils {
+		if wide {
+			break // no id is involved
+		}
 		for _, b := range nils {
 			r, p, msg := c09Eq(a, b)
 			rep.Evaluations++
@@ -397,7 +430,11 @@ func runC09(seed int64, n int, tier string, outDir string) (*Report, error) {
 			}
 		}
 	}
-	for i := 0; i < n/4; i++ {
+	nNil := n / 4
+	if wide {
+		nNil = n / 8
+	}
+	for i := 0; i < nNil; i++ {
 		a := nils[g.Intn(len(nils))]
 		var x ap.Item
 		for {
@@ -436,13 +473,13 @@ func runC09(seed int64, n int, tier string, outDir string) (*Report, error) {
 
 	// ---- 3a. identity, exhaustive over the id classes: every ordered pair of classes, every variant pair,
 	//          as object/object, IRI/IRI and IRI/object: never equal
-	for ca := range c09IDClasses {
-		for cb := range c09IDClasses {
+	for ca := range c09Cur {
+		for cb := range c09Cur {
 			if ca == cb {
 				continue
 			}
-			for va, ida := range c09IDClasses[ca] {
-				for vb, idb := range c09IDClasses[cb] {
+			for va, ida := range c09Cur[ca] {
+				for vb, idb := range c09Cur[cb] {
 					pairs := [][2]ap.Item{
 						{&ap.Object{ID: ap.IRI(ida), Type: ap.NoteType}, &ap.Object{ID: ap.IRI(idb), Type: ap.NoteType}},
 						{ap.IRI(ida), ap.IRI(idb)},
@@ -455,7 +492,7 @@ func runC09(seed int64, n int, tier string, outDir string) (*Report, error) {
 						if pnc || r {
 							violate("ItemsEqual of items whose ids differ in host, path or query", pr[0], pr[1], "false", show(r, pnc, msg), "")
 						}
-						if (ca*7+cb*3+va+vb+pi)%9 == 0 {
+						if gridStep := map[bool]int{false: 9, true: 29}[wide]; (ca*7+cb*3+va+vb+pi)%gridStep == 0 {
 							emit(pr[0], pr[1], fmt.Sprintf("identity grid %d/%d %d/%d shape %d", ca, va, cb, vb, pi))
 						}
 					}
@@ -464,7 +501,11 @@ func runC09(seed int64, n int, tier string, outDir string) (*Report, error) {
 		}
 	}
 	// ---- 3. identity: objects with ids of different identity classes, or types differing beyond case
-	for i := 0; i < n/3; i++ {
+	nIdent := n / 3
+	if wide {
+		nIdent = n / 4
+	}
+	for i := 0; i < nIdent; i++ {
 		o := c09Opts()
 		o.AlwaysID = true
 		toPtr := func(it ap.Item) ap.Item {
@@ -480,7 +521,7 @@ func runC09(seed int64, n int, tier string, outDir string) (*Report, error) {
 			y = c09With(x, "ID", reflect.ValueOf(x).Elem().FieldByName("ID"))
 		}
 		// every ordered pair of identity classes in turn
-		nc := len(c09IDClasses)
+		nc := len(c09Cur)
 		ca := i % nc
 		cb := (ca + 1 + (i/nc)%(nc-1)) % nc
 		what := "ids of different identity"
@@ -538,6 +579,9 @@ func runC09(seed int64, n int, tier string, outDir string) (*Report, error) {
 			}
 			x := base.Interface().(ap.Item)
 			ft := base.Elem().FieldByName(f).Type()
+			if wide && (!idCarrying(ft) || ki%3 != 0) {
+				continue
+			}
 			variants := 1
 			if ft == tNlv {
 				variants = 4
@@ -565,6 +609,9 @@ func runC09(seed int64, n int, tier string, outDir string) (*Report, error) {
 	//          in canonical, lower and upper case (type names compare ignoring case, so "create" is a Create)
 	for _, t := range ap.ActivityTypes {
 		for ci, tn := range []string{string(t), strings.ToLower(string(t)), strings.ToUpper(string(t))} {
+			if wide && ci != len(t)%3 {
+				continue
+			}
 			for _, f := range c09ActivityFields {
 				base := &ap.Activity{ID: "https://example.com/directed-activity", Type: ap.ActivityVocabularyType(tn)}
 				ft := reflect.ValueOf(base).Elem().FieldByName(f).Type()
@@ -587,7 +634,11 @@ func runC09(seed int64, n int, tier string, outDir string) (*Report, error) {
 		}
 	}
 	// ---- 4. sensitivity: one core property (or, for a transitive activity, one activity property) changed
-	for i := 0; i < n/2; i++ {
+	nSens := n / 2
+	if wide {
+		nSens = n / 3
+	}
+	for i := 0; i < nSens; i++ {
 		o := c09Opts()
 		o.AlwaysID = true
 		ki := g.Intn(13)
@@ -609,6 +660,9 @@ func runC09(seed int64, n int, tier string, outDir string) (*Report, error) {
 		c09FieldCtr++
 		f := fieldsPool[c09FieldCtr%len(fieldsPool)] // every compared property in turn
 		ft := xv.FieldByName(f).Type()
+		if wide && !idCarrying(ft) {
+			continue
+		}
 		va, vb := c09TwoValues(g, ft)
 		zero := reflect.Zero(ft)
 		var a, b ap.Item
@@ -669,6 +723,9 @@ func runC09(seed int64, n int, tier string, outDir string) (*Report, error) {
 		pool = append(pool, c09Item(g, i%4 == 3))
 	}
 	np := n
+	if wide {
+		np = n / 2
+	}
 	if tier == "thorough" {
 		np = len(pool) * len(pool)
 	}
@@ -686,6 +743,30 @@ func runC09(seed int64, n int, tier string, outDir string) (*Report, error) {
 		emit(a, b, "pair")
 	}
 
+	return nils
+}
+
+func runC09(seed int64, n int, tier string, outDir string) (*Report, error) {
+	rep := &Report{Rule: "items of every shape of the vocabulary (14 struct kinds in value and pointer form, IRI, *IRI, item lists with nil / id-less / link members, IRIs lists, nil-likes) from the structured generator, an odd stream with foreign type names and typed-nil property values; pairs (x,x), (x, other form of x), (x, x with one property changed), (x,y) over a pool, nil matrix; non-trivial = both arguments non-nil structs or lists, distinct by canonical model term"}
+	g := NewGen(seed, "C09")
+	// (b47) every case is evaluated against BOTH instances of the model: ieq (IRI.Equals over the plain URL grammar, the
+	// instance the C09_* theorems are about) and ieq_u (over the wide library models, the C09_*_u theorems): on the
+	// ids of this stream the two must agree with the code and hence with each other
+	hdr := "From AP.Model Require Import Prelude Vocab Pred IriEq IriEqU Equal EqualU.\n" +
+		"Definition ok (c : item * item * outcome bool) : bool := let '(a, b, o) := c in\n" +
+		"  outcome_eqb Bool.eqb (ieq a b) o && outcome_eqb Bool.eqb (ieq_u a b) o.\n"
+	cc := newC09Cases(rep, seed, "")
+	nils := c09Sections(g, cc, n, tier, false)
+	intern := cc.intern
+	violate := func(op string, a, b ap.Item, want, got, class string) {
+		rep.Violate(Violation{Op: op, Input: []string{CoqItem(a), CoqItem(b)}, Expected: want, Observed: got, Class: class, Index: cc.idx})
+	}
+	show := func(r, p bool, msg string) string {
+		if p {
+			return "panic: " + msg
+		}
+		return fmt.Sprint(r)
+	}
 	// ---- 6. the Equals methods called directly: nil-like arguments (must answer false, never panic),
 	// and struct arguments (correspondence only)
 	type equaler interface{ Equals(ap.Item) bool }
@@ -743,12 +824,9 @@ func runC09(seed int64, n int, tier string, outDir string) (*Report, error) {
 		mcases = append(mcases, mcase{intern("(" + ta + ", " + tb + ", " + obs + ")"), fmt.Sprintf("seed=%d method index=%d", seed, i)})
 	}
 
-	var sb strings.Builder
-	for _, m := range dictOrder {
-		fmt.Fprintf(&sb, "Definition %s : bytes := %s.\n", dict[m], m[1:len(m)-1])
-	}
-	cw := NewCaseWriter(outDir, "Cases_C09", hdr+sb.String(), "item * item * outcome bool")
-	for _, c := range cases {
+	defs := cc.defs()
+	cw := NewCaseWriter(outDir, "Cases_C09", hdr+defs, "item * item * outcome bool")
+	for _, c := range cc.cases {
 		cw.Add(c.term, c.label)
 	}
 	p1, err := cw.Close()
@@ -758,7 +836,7 @@ func runC09(seed int64, n int, tier string, outDir string) (*Report, error) {
 	hdr2 := "From AP.Model Require Import Prelude Vocab Pred Equal.\n" +
 		"Definition ok (c : item * item * outcome bool) : bool := let '(a, b, o) := c in\n" +
 		"  match a with IObj _ k fs => match equals_method cfg_fixed ieq k fs b with Some r => outcome_eqb Bool.eqb r o | None => false end | _ => false end.\n"
-	cw2 := NewCaseWriter(outDir, "Cases_C09_meth", hdr2+sb.String(), "item * item * outcome bool")
+	cw2 := NewCaseWriter(outDir, "Cases_C09_meth", hdr2+defs, "item * item * outcome bool")
 	for _, c := range mcases {
 		cw2.Add(c.term, c.label)
 	}
